@@ -436,9 +436,9 @@ class World:
             p.resume.set()
             self.main_event.wait()
         finally:
-            self.in_observer = False
             if snap is not None:
                 self.restore(snap)
+            self.in_observer = False
         p.dead = True
 
     def snapshot(self):
@@ -725,7 +725,7 @@ class ModelSoftLock:
         deadline = None if timeout is None or timeout < 0 else w.now + timeout
         while True:
             try:
-                fd = os.open(path, os.O_WRONLY | os.O_CREAT | os.O_EXCL | os.O_TRUNC, 0o644)
+                fd = _REAL["os_open"](path, os.O_WRONLY | os.O_CREAT | os.O_EXCL | os.O_TRUNC, 0o644)
                 os.write(fd, ("%d\n%s\n" % (w.cur.pid, w.cur.host)).encode())
                 os.close(fd)
                 break
@@ -872,10 +872,64 @@ def _dict_config(cfg):
         return _REAL["dictConfig"](cfg)
 
 
+def _file_effect(kind, path, **kw):
+    """File mutations are effect points (kill / fault injection, fine-grained pre-emption)."""
+    w = _W
+    if w is None or not w.track_files or w.in_observer:
+        return
+    try:
+        path = os.fspath(path)
+    except TypeError:
+        return
+    if isinstance(path, bytes) or not str(path).startswith(w.root):
+        return
+    if str(path).endswith(".lock"):
+        return  # lock markers are reported as lock effects
+    w.effect(kind, path=str(path), **kw)
+
+
+def _open(file, mode="r", *a, **kw):
+    if _W is not None and _W.track_files and isinstance(mode, str) and any(c in mode for c in "wax+"):
+        _file_effect("write_open", file, mode=mode)
+    elif _W is not None and _W.track_files and _W.track_reads:
+        _file_effect("read_open", file, mode=mode)
+    return _REAL["open"](file, mode, *a, **kw)
+
+
+def _os_open(path, flags, *a, **kw):
+    if _W is not None and _W.track_files and flags & (os.O_WRONLY | os.O_RDWR | os.O_CREAT):
+        _file_effect("write_open", path, mode="os.open")
+    return _REAL["os_open"](path, flags, *a, **kw)
+
+
+def _remove(path, *a, **kw):
+    _file_effect("remove", path)
+    return _REAL["remove"](path, *a, **kw)
+
+
+def _unlink(path, *a, **kw):
+    _file_effect("remove", path)
+    return _REAL["unlink"](path, *a, **kw)
+
+
+def _rename(src, dst, *a, **kw):
+    _file_effect("rename", src, dst=str(dst))
+    return _REAL["rename"](src, dst, *a, **kw)
+
+
 def install():
     """Patch the library boundaries once per process (before or after importing jade)."""
     if _REAL:
         return
+    _REAL.update(open=builtins.open, os_open=os.open, remove=os.remove, unlink=os.unlink, rename=os.rename)
+    builtins.open = _open
+    os.open = _os_open
+    os.remove = _remove
+    os.unlink = _unlink
+    os.rename = _rename
+    import io as _io
+
+    _io.open = _open
     _REAL.update(time=time.time, sleep=time.sleep, Popen=subprocess.Popen, call=subprocess.call,
                  gethostname=socket.gethostname, uuid4=uuid.uuid4, dictConfig=logging.config.dictConfig,
                  acquire=filelock.SoftFileLock.acquire, release=filelock.SoftFileLock.release,
@@ -899,5 +953,7 @@ def install():
 
 
 World.logging_real = False
+World.track_files = False
+World.track_reads = False
 World.deadline_s = 6
 World.poll_fixpoint = True
